@@ -335,6 +335,11 @@ class Gen:
                 if v:
                     a, ra = v, True
             a, rt = self.anchor("flt", a, ra, rb, pure or eb)
+            if op == "-" and re.sub(r"[()\s-]", "", b) == "0":
+                # reference Lua compiles `x - K` for a small integer constant K as OP_ADDI x, -K: `x - 0` is `x + 0`,
+                # +0.0 for x = -0.0 where IEEE (and Nelua) give -0.0.  Recorded as a known finding with its own
+                # witness program (`local v = -0.0 print(v - 0)`); not generated again
+                op = "+"
             # (operands keep their left-to-right order: the call, if any, stays first)
             return "(%s %s %s)" % (a, op, b), ea or eb, rt
         b, eb, rb = self.flt_expr(depth + 1, pure or ea, nocall or ea)
